@@ -520,7 +520,10 @@ class SFTPFile(BufferedFile):
                 offset += chunk_size
                 size -= chunk_size
 
-        self._start_prefetch(read_chunks, max_concurrent_prefetch_requests)
+        if len(read_chunks) > 0:
+            # (with nothing to request there is nothing to wait for either;
+            # everything asked for is already buffered or on its way)
+            self._start_prefetch(read_chunks, max_concurrent_prefetch_requests)
         # now we can just devolve to a bunch of read()s :)
         for x in chunks:
             self.seek(x[0])
